@@ -115,17 +115,17 @@ CLAIMED["C19"] = ("Proof (deductive, every fault position) of the error discipli
 CLAIMED["C01"] = ("Proof (deductive, every reply the AMF may send, every configuration) of the emulator's side of the exchange at driver level, over ghost logs written by the contracts of the callees: "
   "ManageNGSetup builds exactly one NGAP message, the NG SETUP REQUEST with the configured gNB id length; RegisterUE builds, in this order, INITIAL UE MESSAGE (RAN-UE-NGAP-ID of the UE), UPLINK NAS TRANSPORT x2, INITIAL CONTEXT SETUP RESPONSE, UPLINK NAS TRANSPORT, "
   "each with the AMF-UE-NGAP-ID taken from the AMF's reply and the UE's RAN-UE-NGAP-ID; the NAS messages are Registration Request, Authentication Response, Registration Request (for the container), Security Mode Complete, Registration Complete; "
-  "exactly two messages are security protected: Security Mode Complete with header type 4, new context, COUNT 0, and Registration Complete with header type 2, COUNT 1; the stored uplink COUNT ends at 2; a procedure leaves through ManageError (exit) only after a fault — the association failed, a consumed reply was undecodable or a message builder returned an error — so for an AMF that answers, the exchange runs to its end; per MNC length (cases ids2 / ids3): the mobile identity of both Registration Requests is the null-scheme SUCI of the UE's SUPI, the serving network name handed to the key derivation is SNName(mcc, mnc) (the precondition of C05's contract, proved at its call site), and NG Setup announces the PLMN octets of the configured IMSI "
+  "exactly two messages are security protected: Security Mode Complete with header type 4, new context, COUNT 0, and Registration Complete with header type 2, COUNT 1; the stored uplink COUNT ends at 2; a procedure leaves through ManageError (exit) only after a fault — the association failed, a consumed reply was undecodable or a message builder returned an error — so for an AMF that answers, the exchange runs to its end; the AMF-UE-NGAP-ID of every uplink message after the first reply is the value read from the first IE of that reply (the decoded reply is an unknown but fixed structure at this level); per MNC length (cases ids2 / ids3): the mobile identity of both Registration Requests is the null-scheme SUCI of the UE's SUPI, the serving network name handed to the key derivation is SNName(mcc, mnc) (the precondition of C05's contract, proved at its call site), and NG Setup announces the PLMN octets of the configured IMSI "
   "(EncodeNasPduWithSecurity proved against NASEncode's contract, C06). The pieces the statement composes are decided under their own properties: octets of each NGAP message (C13, C03), SUCI/PLMN (C11), RES* and keys (C05, C15), envelope and MAC (C06, C07).",
   "NOT decided: acceptance by a reference AMF as a whole conversation (no peer is run; kernel SCTP and a socket hook are not used by this technique), the contents of the NAS messages built by nasTestpacket (constructors are assumed: they record what they were asked to build), "
-  "the decoded contents the driver reads from replies (ngap.Decoder is assumed to return a message or an error). Functional preconditions of callees are assumed at driver level (proved where the callee is claimed). Run-time panics end the procedure.",
+  "the contents of the replies beyond the fields the driver reads (ngap.Decoder is assumed to return a message — an unknown but fixed structure — or an error; that the AMF-UE-NGAP-ID is the FIRST IE of the reply is the code's own assumption and is not checked against TS 38.413). Functional preconditions of callees are assumed at driver level (proved where the callee is claimed). Run-time panics end the procedure.",
   "DESIGN.md §I.2 C01")
 CLAIMED["C02"] = ("Proof (deductive, every reply, every UE state, every UE count and repetition count) in three layers. "
   "(1) main() in test mode (argument vector [_, -t], any configuration): loop invariants len(ueList) = len(pduList) = number of registrations done; every ueList[i] / pduList[i] is in range; "
   "the number of establishments is at most the number of registered UEs, the numbers of service requests and releases at most the number of establishments, the number of deregistrations at most the number of registered UEs "
   "(so no procedure is attempted for a UE whose prerequisite loop did not reach it), for counts larger than the number of UEs and for negative counts; stgutg.Min proved. "
   "(2) Each procedure (EstablishPDU, ServiceRequest, ReleasePDU, DeregisterUE) at driver level over ghost logs written by the contracts of the callees: exactly the NGAP messages of the procedure in order, each with the UE's own AMF-UE-NGAP-ID and RAN-UE-NGAP-ID; "
-  "one PDU session identity in 1..15 in the NAS request, the release complete and the NGAP response; every protected NAS message uses header type 2 and the stored uplink COUNT, which ends one higher; exit through ManageError only after a fault; the S-NSSAI handed to the establishment request and the release complete is the configured (sst, sd), the GTP address of the setup responses is the configured one, the deregistration request carries the SUCI of the UE's SUPI (cases ids2 / ids3) (EncodeNasPduWithSecurity proved against NASEncode's contract) — no COUNT is used twice before 2^24 messages. "
+  "one PDU session identity in 1..15 in the NAS request, the release complete and the NGAP response; every protected NAS message uses header type 2 and the stored uplink COUNT, which ends one higher; exit through ManageError only after a fault; the S-NSSAI handed to the establishment request and the release complete is the configured (sst, sd), the GTP address of the setup responses is the configured one, the deregistration request carries the SUCI of the UE's SUPI (cases ids2 / ids3), the octets handed to the extractors of C12 are the NAS-PDU and the transfer of the first item of the third IE of the decoded PDU SESSION RESOURCE SETUP REQUEST (EncodeNasPduWithSecurity proved against NASEncode's contract) — no COUNT is used twice before 2^24 messages. "
   "(3) Relational lemma: establishment, service request and release run one after the other on one UE use the same PDU session identity in all six places. "
   "The check also runs the contracts it composes: C06 (envelope, COUNT), C12 (UE address / TEID / UPF address extraction), C13 (NGAP builders and wire form).",
   "NOT decided: traffic mode of main() (blocks on a channel; XDP packages), acceptance by a reference AMF/SMF (no peer is run), NAS message contents (constructors assumed: they record what they were asked to build), that loop k of main passes element i (and not another element) is read off the index obligations only. "
